@@ -253,17 +253,19 @@ func mapDynamoToTypesSliceItem(input []dynamodbtypes.AttributeValue) []*types.It
 func mapDynamoToTypesItem(item dynamodbtypes.AttributeValue) *types.Item {
 	itemB, ok := item.(*dynamodbtypes.AttributeValueMemberB)
 	if ok {
-		return &types.Item{B: itemB.Value}
+		return &types.Item{B: copyBytes(itemB.Value)}
 	}
 
 	itemBOOL, ok := item.(*dynamodbtypes.AttributeValueMemberBOOL)
 	if ok {
-		return &types.Item{BOOL: &itemBOOL.Value}
+		value := itemBOOL.Value
+
+		return &types.Item{BOOL: &value}
 	}
 
 	itemBS, ok := item.(*dynamodbtypes.AttributeValueMemberBS)
 	if ok {
-		return &types.Item{BS: itemBS.Value}
+		return &types.Item{BS: copyByteSlices(itemBS.Value)}
 	}
 
 	itemS, ok := item.(*dynamodbtypes.AttributeValueMemberS)
@@ -544,7 +546,7 @@ func mapTypesToDynamoLocalSecondaryIndexes(input []types.LocalSecondaryIndexDesc
 func mapTypesToDynamoItem(item *types.Item) dynamodbtypes.AttributeValue {
 	if len(item.B) != 0 {
 		return &dynamodbtypes.AttributeValueMemberB{
-			Value: item.B,
+			Value: copyBytes(item.B),
 		}
 	}
 
@@ -556,7 +558,7 @@ func mapTypesToDynamoItem(item *types.Item) dynamodbtypes.AttributeValue {
 
 	if len(item.BS) != 0 {
 		return &dynamodbtypes.AttributeValueMemberBS{
-			Value: item.BS,
+			Value: copyByteSlices(item.BS),
 		}
 	}
 
@@ -684,4 +686,27 @@ func mapKnownError(err error) error {
 	}
 
 	return err
+}
+
+// copyBytes and copyByteSlices copy binary values, so that the stored state never shares
+// mutable memory with the structures the caller passed in or received.
+func copyBytes(b []byte) []byte {
+	if b == nil {
+		return nil
+	}
+
+	return append([]byte{}, b...)
+}
+
+func copyByteSlices(bs [][]byte) [][]byte {
+	if bs == nil {
+		return nil
+	}
+
+	out := make([][]byte, len(bs))
+	for i, b := range bs {
+		out[i] = copyBytes(b)
+	}
+
+	return out
 }
